@@ -73,6 +73,69 @@ def _node_of(cfg, expr):
     return ids
 
 
+def check_writeback_freshness(repo, rule):
+    """A connection's state snapshot may be written back (close_service) after the coroutine gave up control only if it is
+    known to be the *registered* one in the same atomic region: looked up from the registry there, or identity-tested there.
+    Otherwise a successor that registered and advanced the state in between is rolled back."""
+    mgr = repo.cls(F.SRV_MGR, "ServicesManager")
+    n = 0
+    for fi in mgr.methods.values():
+        if not fi.is_async:
+            continue
+        c = cfg_of(fi.node)
+        aw = _await_nodes(c)
+        for node in c.nodes:
+            if node.ast is None or node.stmt is None:
+                continue
+            for call in calls_in_order(node.stmt if node.kind != "test" else node.ast):
+                if not (isinstance(call.func, ast.Attribute) and call.func.attr == "close_service"):
+                    continue
+                n += 1
+                recv = call.func.value
+                prior = [w for w in aw if w != node.id and c.can_reach(w, node.id)]
+                desc = {"function": fi.qual, "line": node.line, "receiver": unparse(recv)}
+                if not prior:
+                    rule.ok(desc)
+                    continue
+                fresh_lookup = isinstance(recv, ast.Subscript) and dotted(recv.value) == REG or \
+                    (isinstance(recv, ast.Call) and isinstance(recv.func, ast.Attribute) and dotted(recv.func.value) == REG)
+                guarded = False
+                if isinstance(recv, ast.Name):
+                    # local bound from the registry in the same atomic region
+                    for m in c.nodes:
+                        if m.kind == "stmt" and isinstance(m.stmt, ast.Assign) and any(isinstance(t, ast.Name) and t.id == recv.id for t in m.stmt.targets):
+                            v = m.stmt.value
+                            from_reg = (isinstance(v, ast.Subscript) and dotted(v.value) == REG) or \
+                                (isinstance(v, ast.Call) and isinstance(v.func, ast.Attribute) and dotted(v.func.value) == REG)
+                            if from_reg and c.dominates(m.id, node.id) and not _await_between(c, m.id, node.id, aw):
+                                guarded = True
+                    # identity test against the registry entry dominating the call, no await in between
+                    for t in c.nodes:
+                        if t.kind != "test":
+                            continue
+                        for cmp_ in ast.walk(t.ast):
+                            if isinstance(cmp_, ast.Compare) and len(cmp_.ops) == 1 and isinstance(cmp_.ops[0], (ast.Is, ast.Eq)):
+                                sides = [cmp_.left, cmp_.comparators[0]]
+                                has_reg = any(any((isinstance(y, ast.Subscript) and dotted(y.value) == REG) or
+                                                  (isinstance(y, ast.Call) and isinstance(y.func, ast.Attribute) and dotted(y.func.value) == REG)
+                                                  for y in ast.walk(x)) for x in sides)
+                                has_me = any(isinstance(x, ast.Name) and x.id == recv.id for x in sides)
+                                if has_reg and has_me:
+                                    tb = [b for (b, lab) in c.succ[t.id] if lab is True]
+                                    on_true = any(b == node.id or c.can_reach(b, node.id) for b in tb) and not any(
+                                        (b == node.id or c.can_reach(b, node.id, avoid={t.id})) for (b, lab) in c.succ[t.id] if lab is False)
+                                    if on_true and not _await_between(c, t.id, node.id, aw):
+                                        guarded = True
+                if fresh_lookup or guarded:
+                    rule.ok(desc)
+                else:
+                    rule.fail_fn(fi, call, "stale snapshot written back after giving up control",
+                                 "%s writes back the snapshot of %s (close_service) after awaiting (line %d) without knowing that it is still the registered "
+                                 "connection: a successor that connected in the meantime and advanced the service is rolled back to the closed connection's state" % (
+                                     fi.name, unparse(recv), c.nodes[prior[0]].line), witness=desc)
+    rule.require(n >= 1, mgr.methods.get("create_service"), "write-back site", "no close_service() call found in the connection manager")
+
+
 def check(repo):
     rules = []
     mgr = repo.cls(F.SRV_MGR, "ServicesManager")
@@ -343,6 +406,27 @@ def check(repo):
                                "(line %d): a successor that registered in between and advanced the state is rolled back" % (c.nodes[d].line, c.nodes[w].line, cl.line), witness=desc)
     if clean is not None:
         r6.require(r6.obligations >= 1, clean, "write-back/unregister pair", "the clean-up no longer pairs close_service() with the unregistration")
+
+    r8 = Rule("R12.8", "a snapshot is written back after an await only for the connection that is still registered")
+    rules.append(r8)
+    check_writeback_freshness(repo, r8)
+    r7 = Rule("R12.7", "accepted transitions are persisted by the handler before they are acknowledged")
+    rules.append(r7)
+    from . import c10
+    for rr in c10.check(repo):
+        if rr.id == "R10.3":
+            r7.obligations += rr.obligations
+            r7.discharged += rr.discharged
+            r7.instances += rr.instances
+            for f in rr.findings:
+                f.rule = "R12.7"
+                r7.findings.append(f)
+        if rr.id == "R10.1":
+            for f in rr.findings:
+                if "write_service_meta" in f.construct:
+                    f.rule = "R12.7"
+                    r7.findings.append(f)
+                    r7.obligations += 1
 
     # ---------------------------------------------------------------- R12.3 identity after await
     for fi in coros:
